@@ -19,15 +19,25 @@ func init() { register("C03", c03) }
 func c03state(t *tree.Tree) *Sexp {
 	d, audit := ObserveTree(t)
 	nw := ""
-	func() {
-		defer func() {
-			if r := recover(); r != nil {
-				audit.List = append(audit.List, A(fmt.Sprintf("panic in Newick(): %v", r)))
-			}
+	// a structure that fails the audit is not handed to the code under test again: recursions over
+	// an asymmetric or cyclic adjacency overflow the stack, which no recover() can catch
+	if len(audit.List) == 0 {
+		func() {
+			defer func() {
+				if r := recover(); r != nil {
+					audit.List = append(audit.List, A(fmt.Sprintf("panic in Newick(): %v", r)))
+				}
+			}()
+			nw = t.Newick()
 		}()
-		nw = t.Newick()
-	}()
+	}
 	return L(KV("tree", d), KV("audit", audit), KV("nw", A(nw)))
+}
+
+// c03broken tells whether a state observation carries audit problems.
+func c03broken(st *Sexp) bool {
+	a := st.Get("audit")
+	return a != nil && len(a.List) > 0
 }
 
 type c03np struct {
@@ -147,8 +157,16 @@ func c03nraw(t *tree.Tree) int {
 
 // c03step runs one operation on *cur (clone/subtree replace *cur and append the old tree to
 // *originals).  It returns the observation of the step and whether the history goes on.
-func c03step(cur **tree.Tree, originals *[]*tree.Tree, c *Sexp) (obs *Sexp, goOn bool) {
+//
+// *held is the rearrangement kept by an earlier nni_hold step; it survives only steps that
+// keep every node of the tree (sort, rotate, nni_release) and is dropped by any other step.
+func c03step(cur **tree.Tree, originals *[]*tree.Tree, held *tree.Rearrangement, c *Sexp) (obs *Sexp, goOn bool) {
 	t := *cur
+	switch c.Str("op") {
+	case "sort", "rotate", "nni_release":
+	default:
+		*held = nil
+	}
 	defer func() {
 		if r := recover(); r != nil {
 			obs = L(KV("panic", A(fmt.Sprintf("%v", r))))
@@ -230,13 +248,40 @@ func c03step(cur **tree.Tree, originals *[]*tree.Tree, c *Sexp) (obs *Sexp, goOn
 					return true
 				}
 				if operr = re.Apply(); operr == nil && undo {
-					obs.List = append(obs.List, KV("mid", c03state(t)))
-					operr = re.Undo()
+					mid := c03state(t)
+					obs.List = append(obs.List, KV("mid", mid))
+					if !c03broken(mid) {
+						operr = re.Undo()
+					}
 				}
 				return false
 			})
 		} else if undo {
 			obs.List = append(obs.List, KV("mid", c03state(t)))
+		}
+	case "nni_hold":
+		// Apply the k-th proposal and keep the rearrangement object for a later Undo
+		k := c.Int("k")
+		r := &tree.NNIRearranger{}
+		count := 0
+		r.Rearrange(t, func(re tree.Rearrangement) bool { count++; return true })
+		if count > 0 {
+			target, idx := k%count, 0
+			r.Rearrange(t, func(re tree.Rearrangement) bool {
+				if idx != target {
+					idx++
+					return true
+				}
+				if operr = re.Apply(); operr == nil {
+					*held = re
+				}
+				return false
+			})
+		}
+	case "nni_release":
+		if *held != nil {
+			operr = (*held).Undo()
+			*held = nil
 		}
 	case "rename":
 		operr = t.Rename(map[string]string{c03sel1(t, c.Get("tip")): c.Str("to")})
@@ -265,7 +310,8 @@ func c03step(cur **tree.Tree, originals *[]*tree.Tree, c *Sexp) (obs *Sexp, goOn
 	st := c03state(*cur)
 	obs.List = append(obs.List, KV("err", A("")))
 	obs.List = append(obs.List, st.List...)
-	return obs, true
+	// the history ends on a structure that fails the audit (the judge reports it at this step)
+	return obs, !c03broken(st)
 }
 
 func c03(c *Sexp) *Sexp {
@@ -278,9 +324,10 @@ func c03(c *Sexp) *Sexp {
 	start := c03state(t)
 	steps := L()
 	originals := []*tree.Tree{}
+	var held tree.Rearrangement
 	if ops := c.Get("ops"); ops != nil {
 		for _, op := range ops.List {
-			obs, goOn := c03step(&t, &originals, op)
+			obs, goOn := c03step(&t, &originals, &held, op)
 			steps.List = append(steps.List, obs)
 			if !goOn {
 				break
@@ -291,5 +338,6 @@ func c03(c *Sexp) *Sexp {
 	for _, o := range originals {
 		origs.List = append(origs.List, c03state(o))
 	}
+	_ = held
 	return L(KV("start", start), KV("steps", steps), KV("originals", origs))
 }
